@@ -2865,8 +2865,10 @@ fn fixed_ops(case: usize, script: fn(usize, &mut dyn FnMut(&str) -> String)) -> 
 
 
 // =============================================================================================
-// profile nc-failover (C18): tokens listing 2..4 server addresses of which only one answers; loss or delay of the
-// first packets on every address; then a lossless phase after which both sides must be connected
+// profile nc-failover (C18, C17): tokens listing 2..4 server addresses of which only one answers; loss or delay of the
+// first packets on every address; then a lossless phase after which both sides must be connected, and a short session.
+// Variant `early` (1 in 3): the first address answers the first request with a challenge and is silent from then on,
+// so the fail-over happens in the RESPONSE phase (sealed responses were already sent under the client-to-server key)
 // =============================================================================================
 
 struct FoClient {
